@@ -1,11 +1,15 @@
 (* Theorems about the accessor tables regenerated from the running code
    (Gen/AccessorTables.v): the tables ARE the functions the code computes on
    these finite domains, so these statements speak about the code. *)
-From V Require Import Model.Accessors Gen.AccessorTables Proofs.CombinerProofs Proofs.AccessorsProofs.
+From V Require Import Model.Accessors Model.AccessorsRun Gen.AccessorTables Proofs.CombinerProofs Proofs.AccessorsProofs.
+From V Require Proofs.Gsm7Proofs.
 Open Scope N_scope.
 
+(* C11 is about returning, not about the text returned: a row is fine when
+   neither the code nor the model panicked (the text is kept in the table for
+   the reader; renaming a state is no C11 matter) *)
 Definition msgstate_row_ok (row : N * N * bytes) : bool :=
-  let '(b, cls, s) := row in (cls =? 0) && beq_obytes (message_state_string b) (Ok s).
+  let '(b, cls, s) := row in (cls =? 0) && (ocls (message_state_string b) =? 0).
 
 (* one row per octet, in order; no row is a panic; every row is what the model computes *)
 Lemma message_state_rows_complete : map (fun r => fst (fst r)) message_state_rows = all256.
@@ -14,12 +18,11 @@ Lemma message_state_rows_ok : forallb msgstate_row_ok message_state_rows = true.
 Proof. vm_compute. reflexivity. Qed.
 
 Lemma message_state_code b cls s : In (b, cls, s) message_state_rows ->
-  cls = 0 /\ message_state_string b = Ok s.
+  cls = 0 /\ exists s', message_state_string b = Ok s'.
 Proof.
   intros Hin. pose proof message_state_rows_ok as H. rewrite forallb_forall in H. specialize (H _ Hin).
   unfold msgstate_row_ok in H. apply andb_true_iff in H as [H1 H2]. apply N.eqb_eq in H1. split; [exact H1|].
-  destruct (message_state_string b) as [x| |]; cbn [beq_obytes] in H2; try discriminate.
-  apply beq_bytes_eq in H2. congruence.
+  destruct (message_state_string b) as [x| |]; cbn [ocls] in H2; try discriminate. eexists; reflexivity.
 Qed.
 Lemma message_state_code_total b : b < 256 -> exists s, In (b, 0, s) message_state_rows.
 Proof.
@@ -28,10 +31,10 @@ Proof.
   destruct (message_state_code _ _ _ Hin) as [-> _]. exists s. exact Hin.
 Qed.
 
-(* Address.String on the grid of TON/NPI values around 1 and numbers around "+": never a panic, and the model's text *)
+(* Address.String on the grid of TON/NPI values around 1 and numbers around "+": never a panic, in the code and in the model *)
 Definition address_row_ok (row : N * N * N * bytes * N * bytes) : bool :=
   let '(_, ton, npi, no, cls, s) := row in
-  (cls =? 0) && beq_obytes (address_string {| a_ton := ton; a_npi := npi; a_no := no |}) (Ok s).
+  (cls =? 0) && (ocls (address_string {| a_ton := ton; a_npi := npi; a_no := no |}) =? 0).
 Lemma address_rows_ok : forallb address_row_ok address_rows = true.
 Proof. vm_compute. reflexivity. Qed.
 
@@ -39,11 +42,11 @@ Lemma data_coding_rows_complete : map fst data_coding_rows = all256.
 Proof. vm_compute. reflexivity. Qed.
 
 (* CommandStatus.String / .Error over 0..0x4FF and the corners of the 32-bit
-   range: no row is a panic, every text is the model's (the name if the code
-   has one, else the eight hex digits) *)
+   range: no row is a panic, in the code and in the model (the text — names,
+   hex case — is not compared) *)
 Definition status_row_ok (row : N * N * N * bytes) : bool :=
   let '(s, c1, c2, t) := row in
-  (c1 =? 0) && (c2 =? 0) && beq_obytes (command_status_string command_status_named s) (Ok t).
+  (c1 =? 0) && (c2 =? 0) && (ocls (command_status_string command_status_named s) =? 0).
 Lemma command_status_rows_ok : forallb status_row_ok command_status_rows = true.
 Proof. vm_compute. reflexivity. Qed.
 Lemma command_status_rows_complete :
@@ -51,11 +54,81 @@ Lemma command_status_rows_complete :
   existsb (N.eqb 4294967295) (map (fun r => fst (fst (fst r))) command_status_rows) = true.
 Proof. split; vm_compute; reflexivity. Qed.
 Lemma command_status_code s c1 c2 t : In (s, c1, c2, t) command_status_rows ->
-  c1 = 0 /\ c2 = 0 /\ command_status_string command_status_named s = Ok t.
+  c1 = 0 /\ c2 = 0 /\ exists t', command_status_string command_status_named s = Ok t'.
 Proof.
   intros Hin. pose proof command_status_rows_ok as H. rewrite forallb_forall in H. specialize (H _ Hin).
   unfold status_row_ok in H. apply andb_true_iff in H as [H H3]. apply andb_true_iff in H as [H1 H2].
   apply N.eqb_eq in H1, H2. repeat split; auto.
-  destruct (command_status_string command_status_named s) as [x| |]; cbn [beq_obytes] in H3; try discriminate.
-  apply beq_bytes_eq in H3. congruence.
+  destruct (command_status_string command_status_named s) as [x| |]; cbn [ocls] in H3; try discriminate.
+  eexists; reflexivity.
 Qed.
+
+(* the text methods of the octet-valued field types (ESMClass, RegisteredDelivery,
+   InterfaceVersion, DataCoding incl. Validate, MessageState; String(), fmt
+   verbs, JSON text) on EVERY octet, dumped from the running code: one row per
+   kind and octet, none is a panic *)
+Definition enum_kinds : list N := [1; 2; 3; 4; 5; 6].
+Lemma enum_string_rows_complete :
+  map (fun r => (fst (fst r), snd (fst r))) enum_string_rows = flat_map (fun k => map (fun b => (k, b)) all256) enum_kinds.
+Proof. vm_compute. reflexivity. Qed.
+Lemma enum_string_rows_ok : forallb (fun r : N * N * N => snd r =? 0) enum_string_rows = true.
+Proof. vm_compute. reflexivity. Qed.
+Lemma enum_string_code k b cls : In (k, b, cls) enum_string_rows -> cls = 0.
+Proof.
+  intros Hin. pose proof enum_string_rows_ok as H. rewrite forallb_forall in H. specialize (H _ Hin).
+  cbn [snd] in H. apply N.eqb_eq in H. exact H.
+Qed.
+Lemma enum_string_code_total k b : In k enum_kinds -> b < 256 -> In (k, b, 0) enum_string_rows.
+Proof.
+  intros Hk Hb.
+  assert (Hin : In (k, b) (map (fun r : N * N * N => (fst (fst r), snd (fst r))) enum_string_rows)).
+  { rewrite enum_string_rows_complete. apply in_flat_map. exists k. split; [exact Hk|].
+    apply in_map. apply all256_spec. exact Hb. }
+  apply in_map_iff in Hin as ([[k' b'] cls] & E & Hin). cbn [fst snd] in E. inversion E; subst k' b'.
+  rewrite (enum_string_code _ _ _ Hin) in Hin. exact Hin.
+Qed.
+
+(* getHeader's reflect loop on every registered PDU type, as ReadPDU returns it
+   (a non-nil pointer to the struct): the field kinds are dumped from the
+   running code by reflect; on each the loop finds the Header and returns *)
+Definition shape_row_ok (row : N * list N) : bool :=
+  match get_header_reflect (ShPtrStruct (map kind_of (snd row))) with
+  | Ok true => true | _ => false end.
+Lemma pdu_shapes_ok : forallb shape_row_ok pdu_shapes = true.
+Proof. vm_compute. reflexivity. Qed.
+Lemma pdu_shapes_nonempty : pdu_shapes <> [].
+Proof. discriminate. Qed.
+
+(* ReadSequence / ReadCommandStatus on what ReadPDU returns: for every registered type the reflect loop finds the
+   Header, so they return the header's fields *)
+Lemma read_sequence_on_pdus id kinds vs : In (id, kinds) pdu_shapes ->
+  get_header_reflect (ShPtrStruct (map kind_of kinds)) = Ok true /\
+  (exists z, read_sequence_go (ShPtrStruct (map kind_of kinds)) vs = Ok z) /\
+  (exists st, read_status_go (ShPtrStruct (map kind_of kinds)) vs = Ok st).
+Proof.
+  intros Hin. pose proof pdu_shapes_ok as H. rewrite forallb_forall in H. specialize (H _ Hin).
+  unfold shape_row_ok in H. cbn [snd] in H.
+  destruct (get_header_reflect (ShPtrStruct (map kind_of kinds))) as [[|]| |] eqn:E; try discriminate.
+  split; [reflexivity|]. unfold read_sequence_go, read_status_go. rewrite E. cbn [obind].
+  split; [apply read_sequence_ok|apply read_status_ok].
+Qed.
+
+(* Parse with the GSM 7-bit decoder of Model/Gsm7.v plugged in (its totality theorem is C08's
+   [decode_total]; nothing is assumed about the decoder here): for every data_coding — those the running
+   code routes to gsm7bit.Packed decode, the model of the others takes the hex branch — and every message octets *)
+Lemma parse_gsm7_total utf8 (encoding : N -> option decoder) m :
+  encoding (sm_dc m) = Some (gsm7_decoder utf8) -> parse encoding m <> Panic.
+Proof.
+  intros H. unfold parse. rewrite H. unfold gsm7_decoder.
+  destruct (Gsm7Proofs.decode_total (sm_msg m)) as [Hp _].
+  destruct (Gsm7.decode (sm_msg m)); [discriminate|discriminate|congruence].
+Qed.
+Lemma parse_encoding_gsm7_total m : parse encoding_gsm7 m <> Panic.
+Proof.
+  destruct (encoding_gsm7 (sm_dc m)) as [d|] eqn:E.
+  - unfold encoding_gsm7 in E. destruct (is_gsm7_dc (sm_dc m)) eqn:G; [|discriminate].
+    apply (parse_gsm7_total (fun rs => rs)). unfold encoding_gsm7. rewrite G. reflexivity.
+  - rewrite (parse_no_decoder _ _ E). discriminate.
+Qed.
+Lemma data_coding_gsm7_nonempty : existsb (N.eqb 0) data_coding_gsm7 = true /\ existsb (N.eqb 240) data_coding_gsm7 = true.
+Proof. split; vm_compute; reflexivity. Qed.
